@@ -7,7 +7,7 @@ CT = 'backmp11/favor_compile_time.hpp'
 HTD = ('backmp11/common_types.hpp', 'static constexpr process_result handled_true_or_deferred = process_result :: HANDLED_TRUE | process_result :: HANDLED_DEFERRED ;')
 def gn(_): return [X.T('g_n')]
 CHAIN_LOOP = ('__CPROVER_assigns(%s, result, g_chain_pos, g_consumed, g_taken, g_rejects)\n'
-              '__CPROVER_loop_invariant(0 <= %s && %s <= g_n && g_chain_pos == %s && !g_consumed && g_taken == 0 && 0 <= g_rejects && g_rejects <= %s + 1)\n'
+              '__CPROVER_loop_invariant(0 <= %s && %s <= g_n && g_chain_pos == %s && !g_consumed && g_taken == 0 && 0 <= g_rejects && g_rejects <= %s + 1 && g_rejects >= __CPROVER_loop_entry(g_rejects))\n'
               '__CPROVER_loop_invariant(result == (g_rejects > 0 ? HANDLED_GUARD_REJECT : HANDLED_FALSE))\n'
               '__CPROVER_decreases(g_n - %s)')
 UNITS = []
